@@ -27,10 +27,21 @@ def sig(c):
     return (type(c).__name__,)
 
 
+class Emb:
+    """a riscv form on the E profile (16 integer registers): same form, `.arch riscv32e` / `riscv64e`"""
+    def __init__(self, f):
+        self.f = f
+
+    def __getattr__(self, k):
+        return getattr(self.f, k)
+
+
 def header(f):
     if f.arch == "aarch64":
         return "; .arch aarch64 ;"
     isa = "riscv64" if "rv64" in f.extra[0] else "riscv32"
+    if isinstance(f, Emb):
+        isa += "e"
     return f"; .arch {isa} ; .feature {f.extra[1][0]} ;"
 
 
@@ -60,6 +71,12 @@ def plan(thorough):
                 elif pos + 1 < len(regslots) and isinstance(f.constraints.get(regslots[pos + 1][1]), forms.Named):
                     partner = regslots[pos + 1][1]
                 out.append((f, base, kind, idx, partner))
+                # the same class on the E profile, where x16..x31 do not exist: every integer register slot is a constrained one there
+                if arch == "riscv" and kind == "X":
+                    ekey = ("riscv-e", kind, sig(c), pos, tuple(sig(f.constraints[i]) for i in dep)) if not thorough else ("riscv-e", fi, idx)
+                    if ekey not in seen:
+                        seen.add(ekey)
+                        out.append((Emb(f), base, kind, idx, partner))
     return out
 
 
@@ -110,6 +127,12 @@ def sweep(run, focus, thorough):
                 vals[partner] = pv
             dindex[(ci, pv if partner is not None else base.get(partner))] = len(dcases)
             dcases.append(dict(body=header(f) + " " + f.render(vals, runtime={idx: f"{fam}(v)"}), vars=[("v", "u32" if f.arch == "aarch64" else "u8")]))
+    # a partner literal the form rejects in this configuration (x18.. on the E profile) makes the macro line a compile error: not a case
+    dacc = plug(["cl " + c["body"] for c in dcases])
+    keep = [i for i, a in enumerate(dacc) if a.startswith("ok ")]
+    renum = {i: k for k, i in enumerate(keep)}
+    dcases = [dcases[i] for i in keep]
+    dindex = {k: renum[v] for k, v in dindex.items() if v in renum}
     ok, log = dyn.build(focus + "R", dcases)
     if not ok:
         run.violation("broken-correspondence", {"kind": "harness-build", "harness": "dyn-registers"}, "the generated crate with dynamic aarch64/riscv registers does not build against the working tree",
@@ -140,7 +163,7 @@ def sweep(run, focus, thorough):
                 # out-of-family numbers (>= the family size) are a caller error for unconstrained slots; constrained slots must reject
                 c = f.constraints.get(idx)
                 plain = isinstance(c, forms.R) and c.scale == 1 and (c.count in (32,) or c.count > 64 and c.count == 0xFFFFFFFF)
-                if plain:
+                if plain and not isinstance(f, Emb):
                     continue
                 m["kind"] = "runtime-register-masked"
                 run.violation("failing-input", m, f"{desc} assembles to {b.hex()} although the literal register is rejected ({la[:100]}): the number was masked into the field", payload)
